@@ -319,6 +319,11 @@ func genC07(t *rapid.T) PairCase {
 		return PairCase{A: val.JSON(a), B: val.JSON(b), Opts: opts}
 	}
 	a, b := one()
+	if jdx.IsMerge(opts) && gen.Chance(t, "nullsInA", 20) {
+		// b stays null-free (a merge diff cannot say "set to null"); nulls
+		// and empty objects in a are ordinary old values
+		a = sprinkleNulls(t, a)
+	}
 	if gen.Chance(t, "deep", 25) {
 		a, b = gen.DeepPair(t, a, b, profileFor(opts))
 	}
